@@ -169,6 +169,35 @@ Definition run_op (sy : system) (o : json) (now : Z) : system * json :=
                               (fun l => loc_add_rule_c (sem_of_table (jget_d "sem" o)) l (dec_ctx o) (dec_env o now)
                                                        (jfS "id" o) (jnorm (jget_d "rule" o))) in
     (sy', res_of r (fun i => [("id", JStr i)]))
+  else if String.eqb (jfS "op" o) "listrules" then
+    (* Location.ListRules: the gates, then SearchFacts {"rule": "?rule"}; ids whose binding is a string
+       or a map; an error of the search itself is logged and the (empty) list returned *)
+    let '(sy0', g) := with_loc sy (jfS "loc" o)
+                               (fun l => gated [GEnabled; GRead] l (dec_ctx o) now (fun l' => (l', Ok tt))) in
+    match g with
+    | Err e => (sy0', res_of (@Err unit e) (fun _ => []))
+    | Panic w => (sy0', res_of (@Panic unit w) (fun _ => []))
+    | OutOfFuel => (sy0', res_of (@OutOfFuel unit) (fun _ => []))
+    | Ok _ =>
+    let '(sy', r) := sys_step sy0' (jfS "loc" o) (dec_ctx o) (dec_env o now)
+                              (LSearch (JObj [("rule", JStr "?rule")]) (jfB "inherited" o)) in
+    (sy', match r with
+          | RFound (Ok f) =>
+              JObj [("ids", JArr (canon_multiset
+                       (flat_map (fun g => flat_map (fun r => match snd r with
+                                                             | b :: _ => match alookup "?rule" b with
+                                                                         | Some (JStr _) | Some (JObj _) => [JStr (fst r)]
+                                                                         | _ => []
+                                                                         end
+                                                             | [] => []
+                                                             end) (snd g)) f)));
+                    ("ok", JBool true)]
+          | RFound (Err e) => JObj [("ids", JArr []); ("ok", JBool true)]   (* logged only *)
+          | RFound (Panic w) => res_of (@Panic unit w) (fun _ => [])
+          | RFound OutOfFuel => res_of (@OutOfFuel unit) (fun _ => [])
+          | _ => JObj [("class", JStr "unknown-op"); ("ok", JBool false)]
+          end)
+    end
   else if String.eqb (jfS "op" o) "storeids" then
     (* the ids held by the location's storage, read behind the engine's back *)
     match sys_get sy (jfS "loc" o) with
@@ -364,7 +393,8 @@ Definition spec_process (sy : system) (o : json) (now : Z) : json :=
                                   mkExec rid js bs (match sem js with Some cd => run_code cd bs | None => Err "unknown script" end))
                         (spec_execs cond children) in
           json_of_walk (mkWalk (Ok tt) xs (values_of xs) false)
-      | (_, Err x) => res_of (@Err unit x) (fun _ => [])
+      | (_, Err x) => (* (event errors are only visible as disposition messages) *)
+          res_of (@Err unit (if String.eqb x E_notfound || String.eqb x E_expired then "other" else x)) (fun _ => [])
       | (_, Panic w) => res_of (@Panic unit w) (fun _ => [])
       | (_, OutOfFuel) => res_of (@OutOfFuel unit) (fun _ => [])
       end
@@ -619,7 +649,8 @@ Definition step_acc (a : acc) (o : json) : acc :=
             (* C13: the process died (panic, stack overflow) or hung on this operation.  Never excused by
                ambiguity; D54 = the matcher's unbounded recursion on non-ground data (D12) reached through
                the public API (the pattern meets stored data with "?"-strings under a repeated variable) *)
-            if String.eqb (jfS "class" obs) "crash" || String.eqb (jfS "class" obs) "hang"
+            if String.eqb (jfS "class" obs) "crash" || String.eqb (jfS "class" obs) "hang" ||
+               String.eqb (jfS "class" obs) "panic"
             then (true, if op_risky sy0 o then ["D54"] else [])
             else
             (* C07, judged on the observation alone: a write of an already-expired item was accepted
